@@ -49,12 +49,15 @@ def gen_project(rng, n, corpus=False):
                 files[path] = json.dumps(obj)
                 continue
             for ki, k in enumerate(keys):
+                kw = k
+                if not corpus and l != "en" and rng.chance(1, 8):
+                    kw = rng.pick([" " + k, k + " ", "\t" + k + " "])      # key names are trimmed (both builds of the parser must agree on it)
                 if corpus:
-                    obj[k] = CORPUS_STRINGS[ki] if l == "en" else CORPUS_STRINGS[ki] + l
+                    obj[kw] = CORPUS_STRINGS[ki] if l == "en" else CORPUS_STRINGS[ki] + l
                 elif k in subkeys:
-                    obj[k] = {"a": gen_string(rng, markup=False), "b": {"c": gen_string(rng, markup=False)}}
+                    obj[kw] = {"a": gen_string(rng, markup=False), "b": {"c": gen_string(rng, markup=False)}}
                 else:
-                    obj[k] = gen_string(rng, markup=False)
+                    obj[kw] = gen_string(rng, markup=False)
             path = "locales/%s/%s.json" % (l, unit) if unit else "locales/%s.json" % l
             files[path] = json.dumps(obj, ensure_ascii=rng.chance(1, 3))
     p = {"cargo_toml": cargo, "files": files}
@@ -116,6 +119,29 @@ def check_projects(ctx, binb, projects, tag, count=True):
                 ctx.count("project_rejected_by_parser")
         else:
             report_violation(ctx, "json:write-panics", {"project": projects[pi], "impl": r, "kind": "impl panics, crashes or io error"})
+    # the tables the *macro* bakes (the parser as the proc-macro builds it, feature `quote`; harness parser_h) — the build helper is a separate
+    # build of the same parser (without `quote`, as in a user's build.rs): what it writes must be the tables the generated code indexes
+    from .pipe import build_parser
+    binp = build_parser(ctx)
+    if binp is not None:
+        accepted = [pi for pi, r in enumerate(impl) if "files" in r]
+        preqs = [{"op": "pipeline", "cargo_toml": projects[pi]["cargo_toml"], "files": sorted(map(list, projects[pi]["files"].items())), "operands": []} for pi in accepted]
+        for pi, pr in zip(accepted, run_lines_resilient(binp, preqs)):
+            ok = pr.get("result", {}).get("ok")
+            if ok is None:
+                report_violation(ctx, "json:helper-accepts-what-the-macro-rejects", {"project": projects[pi], "macro_side": str(pr.get("result"))[:300]})
+                continue
+            baked = {(("%s/" % ns["key"]) if ns["key"] else "") + l["name"] + ".json": l["strings"] for ns in ok["nss"] for l in ns["locales"]}
+            for f in impl[pi]["files"]:
+                wrote = f["serde"].get("ok")
+                if count:
+                    ctx.count("file_vs_baked_table")
+                if f["path"] in baked and wrote is not None and wrote != baked[f["path"]]:
+                    report_violation(ctx, "json:exported-table-differs-from-baked-table", {
+                        "project": projects[pi], "file": f["path"], "implementation": wrote, "expected_by_spec": baked[f["path"]],
+                        "why": "the file for lazy loading must hold, at each index, the text the generated code reads at that index",
+                        "harness": "build_h write_translations (parser without `quote`) vs parser_h pipeline (parser with `quote`, the macro's build)"})
+                    break
     mism = 0
     for (pi, f, strs), m in zip(idx, model):
         spec_bad, model_bad = judge(m, f, strs)
